@@ -41,7 +41,10 @@ CONFIG = dict(
          "30% structured scenarios (cancel while the expiry is queued; cancel inside the own callback; two simultaneous expiries cancelling each other; "
          "panicking repeating timer; boundary duration-1 / duration; many ties; cancel after firing / twice / before creation; late drain of a repeating "
          "timer; Stop), 20% of the cases on a real StandardRunService (ops posted to its loop; every callback must run on the loop goroutine), one "
-         "queue-overflow case (1005 timers > channel capacity 999), one malformed stream; corpus first. Run `svc`: a real actorex/service.Service "
+         "queue-overflow case (1005 timers > channel capacity 999), one malformed stream; corpus first. A tenth of the cases: the run service's loop is parked in a posted closure while timers expire (their objects "
+         "pile up in the queue), then StandardRunService.Stop is called from a foreign goroutine while the loop is still stuck, or after it "
+         "resumed, or by the owner itself (no callback may run inside Stop / on the caller's goroutine; how many queued objects the exiting "
+         "loop still takes is left open, q=?). Run `svc`: a real actorex/service.Service "
          "(actor + ScheDisp run service) issues requests to a recording peer, gets them answered or lets them time out, idles across several virtual "
          "seconds and gets busy again; observed per step: callback log of every timer object of the service's manager, ids held in Mgr.timers, "
          "Service.timerCheckExpired, request-table size (spec: a check timer the service gave up never fires again and is gone from the manager; "
